@@ -3,7 +3,7 @@
    Quantification: any state s of the model (any number of listeners and callbacks in the chain, any
    scripts, any queue contents) resp. any op sequence from the initial state; both driver modes;
    signal<T> and signal<void>. *)
-From Cocls Require Import Base BaseProofs SignalDefs SignalProofs.
+From Cocls Require Import Base BaseProofs SignalXDefs SignalXProofs SignalDefs SignalProofs.
 Local Open Scope Z_scope.
 
 (* A collector call from ordinary code, or one whose suspend point is co_awaited (nothing left queued by an
@@ -131,6 +131,29 @@ Theorem c15_subscribe_two_attempts : forall c j x, nth_error (c_subs c) j = Some
   exists y, nth_error (c_subs (cs_thread (cs_thread c j) j)) j = Some y /\ spub y = true /\ sid y = sid x.
 Proof. exact cs_two_attempts. Qed.
 Print Assumptions c15_subscribe_two_attempts.
+
+(* The cross-thread model that the controlled-schedule harness (harness/ctl_signal.cpp) follows step by step — subscribers
+   of all kinds (coroutine, blocking .wait() on a future coroutine, connect(callback), detached async) on their own threads,
+   one collector thread calling and dropping, the state's destructor running on whichever thread releases the last
+   reference, yields at asub/apub/rchain/walk/flag wait: for every case, every schedule, any length, every listener id is
+   at every moment in exactly one place — before its CAS, in the chain, held by a thread walking a taken chain, or
+   finished (resumed once / freed once / future resolved once): never lost, never doubled. *)
+Theorem c15_cross_thread_conservation : forall ops fuel sched,
+  let thr := flat_map decode_thr ops in
+  let s := fst (xrun fuel (x_init thr) sched) in
+  (forall x, SignalXProofs.cnt x (all_ids s) = SignalXProofs.cnt x (subs_from thr O)) /\ NoDup (all_ids s).
+Proof. exact x_conservation. Qed.
+Print Assumptions c15_cross_thread_conservation.
+
+(* ... and when every thread has finished, every subscriber is either still subscribed or finished exactly once *)
+Theorem c15_cross_thread_terminal : forall ops fuel sched,
+  let thr := flat_map decode_thr ops in
+  let s := fst (xrun fuel (x_init thr) sched) in
+  Forall (fun p => p = XDone) (x_pcs s) ->
+  forall x, In x (subs_from thr O) ->
+  SignalXProofs.cnt x (map fst (x_chain s) ++ flat_map ev_fin (x_ev s) ++ map fst (x_resolved s)) = 1%nat.
+Proof. exact x_terminal. Qed.
+Print Assumptions c15_cross_thread_terminal.
 
 (* The statement of C15 does NOT hold for a collector called inside a coroutine whose result is discarded and
    that is called again before the coroutine suspends (finding F-C15): listener 1 waits when 1 and is in the
